@@ -4,12 +4,21 @@ Streams
   C19.desc  abstract container state -> repr/str/dump raise or not            (model + oracle)
   C19.cmds  abstract container state -> emitted commands (kind, key, axes) and
             the container that exec() of the emitted text builds              (model + oracle)
+  C19.emit  object of a class that is not a container (Data, Properties*, coordinates, DomainAxis,
+            CellMethod, CoordinateReference) x keyword variant -> the emitted statements in order,
+            exec outcome, equality + netCDF names                             (model Cfdm.Emit + oracle)
+  C19.dstr  Data object -> str() / repr(), character by character             (model Cfdm.DataStr + oracle)
+  C19.cstr  construct with units / calendar of any type -> str(), Data(...) line of dump
+                                                                               (model + oracle)
   C19.obj   every class exporting repr/str/dump/creation_commands x generated
             instances x keyword variants of creation_commands                 (oracle only)
+(the last three of emit/dstr/cstr live in harness/c19_emit.py)
 
-The model mirrors field.py/domain.py *with fixes/C19-*.patch applied*; the behaviour of the
-code as it is (``KeyError`` / ``ValueError`` for a construct without data axes) is the
-``…Old`` part of the model output and is what the known-finding signatures are tied to.
+The container model mirrors field.py/domain.py at /repo HEAD (the repairs fabc4b1, f9edab4, … are in);
+the behaviour before those repairs is the ``…Old`` part of the model output.  For the open findings with a
+proposed patch the model carries both behaviours (``fix…`` / ``old…`` fields); the implementation is compared
+with the repaired one and a failure counts as a known finding only when it is what the model of the code as
+it is predicts.
 """
 import ast
 import inspect
@@ -22,6 +31,7 @@ import textwrap
 import numpy as np
 
 from .. import fw
+from .. import c19_emit as E
 from ..fw import Case
 
 REQUIRED = [
@@ -37,36 +47,68 @@ REQUIRED = [
     "C19_commandsOld_counterexample",
     "C19_commandsOld_roundtrip_partial",
     "C19_new_identifier_consecutive",
+    "C19_emit_data_roundtrip",
+    "C19_emit_namespace_needed",
+    "C19_emit_data_counterexamples",
+    "C19_emit_leaf_roundtrip",
+    "C19_emit_inherited_counterexample",
+    "C19_emit_pobj_roundtrip",
+    "C19_emit_pobj_counterexamples",
+    "C19_emit_axis_roundtrip",
+    "C19_emit_cm_roundtrip",
+    "C19_emit_ref_roundtrip",
+    "C19_namespace_prefix",
+    "C19_dataStr_total",
+    "C19_dataStr_layout",
+    "C19_constructStr_total",
+    "C19_constructStrOld_counterexample",
+    "C19_constructStrOld_total_partial",
+    "C19_dump_dims",
 ]
-BUDGET = {"quick": 10000, "thorough": 120000}
+BUDGET = {"quick": 14000, "thorough": 160000}
 QUICK_JOBS = 8
 RULE = (
     "desc/cmds: random abstract containers (Field or Domain, or the domain view of a field; 0-4 domain axes with "
     "consecutive or gapped keys, sized/unsized, with/without netCDF dimension names; 0-3 constructs of each of the 7 "
     "array types with/without data, bounds, netCDF names, with axes set / not set / deleted again; field data with or "
     "without data axes; 0-3 cell methods and 0-2 coordinate references under consecutive or gapped keys) built through "
-    "the public API.  obj: every component (field, domain view, domain copy, each construct, bounds, interior ring, "
-    "data, datum, conversion, domain axis, cell method, count/index/list variable) of example fields 0-11, of the same "
-    "fields written and re-read, of fields over ragged contiguous/indexed/indexed-contiguous/gathered arrays, of random "
-    "containers as above and stand-alone instances of every class, each after 0-3 mutations (no data, no identity, "
-    "reference-time units + calendar, string data, masked / all-masked data, size 1, scalar, numpy-valued properties, "
-    "construct without axes, unsized axis, netCDF names on every component) x creation_commands keyword variants "
-    "(indent, string, name, data_name, namespace, header).  non-trivial = container with >= 1 metadata construct, or an "
-    "object carrying data or >= 1 property/parameter; distinct = distinct (stream, abstract state | object recipe, keywords)"
+    "the public API.  emit: seeded recipes for Data (shapes () to 3-d incl. zero-sized, 9 data types incl. str/bytes/bool, "
+    "masked / all masked / NaN under the mask, numpy-valued units, fill values of 5 kinds), the 13 Properties/PropertiesData "
+    "classes (numpy-/list-/NaN-valued properties, netCDF variable / dimension / sample dimension names, bounds taken from a "
+    "parent), the 3 PropertiesDataBounds classes (bounds with/without data, interior ring, geometry, climatology, node "
+    "coordinate variable), domain axes, cell methods (qualifiers incl. interval Data), coordinate references (numpy-, list-, "
+    "Data-valued parameters, domain ancillaries) x keywords (namespace None/''/cfdm/cfdm./xyz/xyz./a.b, name, data_name, "
+    "bounds_name, interior_ring_name incl. clashing ones, header, indent, string).  dstr: Data of 17 shapes (size 0,1,2,3 along "
+    "the last axis or not, >3) x 7 types x masked x reference-time units (good, unparsable, empty calendar) x extreme / "
+    "non-finite displayed elements x non-string units.  cstr: 8 classes x units/calendar of the construct and of its bounds "
+    "(absent, string, reference time, number) x axis-name lists shorter/longer than the data.  obj: every component (field, "
+    "domain view, domain copy, each construct, bounds, interior ring, data, datum, conversion, domain axis, cell method, "
+    "count/index/list variable) of example fields 0-11, of the same fields written and re-read, of fields over ragged "
+    "contiguous/indexed/indexed-contiguous/gathered arrays, of random containers as above and stand-alone instances of every "
+    "class, each after 0-3 mutations (no data, no identity, reference-time units + calendar, string data, masked / all-masked "
+    "data, size 1, scalar, numpy-valued properties, numeric units, identity with a line break, geometry-variable / tie-point / "
+    "datum netCDF names, construct without axes, unsized axis, netCDF names on every component) x creation_commands keyword "
+    "variants.  non-trivial = container with >= 1 metadata construct, or an object carrying data or >= 1 property/parameter; "
+    "distinct = distinct (stream, abstract state | object recipe, keywords)"
 )
 ASSUMPTIONS = [
     "construct identifiers have the standard form <base><n> (custom keys given to set_construct are outside the model streams)",
-    "the model abstracts a construct to (type, shape, netCDF variable name, bounds(has data, netCDF name), axes); properties, "
-    "data values, geometry, interior rings, climatology, measure/cell/connectivity and parameters are covered by the C19.obj "
-    "stream (real objects, exec of the real text), not by the theorems",
+    "the container model abstracts a construct to (type, shape, netCDF variable name, bounds(has data, netCDF name), axes); the "
+    "command-language model (Cfdm.Emit) covers the constructs themselves: properties, data, bounds, interior ring, geometry, "
+    "climatology, measure/cell/connectivity, parameters, netCDF names; strings and numbers are opaque tokens in it (only whether "
+    "their spelling evaluates in a fresh namespace is modelled) and an object with a value it has no encoding for (tuple-valued "
+    "property, object data type) is run through the oracle only (tag emit:outside-the-model)",
     "the order in which creation_commands meets the construct types comes from a Python set and is not compared "
     "(commands are compared as a multiset plus the order of cell methods and of coordinate references plus the "
     "axes-before-use dependency); the round-trip theorem holds for every such order",
     "'fresh namespace' = a new dict holding only the cfdm package under the name given by the namespace keyword "
-    "(its public names for namespace='')",
+    "(its public names for namespace=''; a chain of simple namespaces for a dotted prefix)",
     "representative_data=True is not exercised (the property sets it aside)",
     "states whose recorded axes name a deleted domain axis are C02 violations and are not generated here, except "
     "Field.set_data_axes naming a missing axis on a field without data (rare, tagged)",
+    "the date-time conversions of Data.__str__ are a parameter of the display model: the harness obtains them from "
+    "netCDF4.num2date with the call forms of Data.datetime_array (0-d for one element, 1-d for the first/last pair)",
+    "a refusal of clashing names (ValueError naming the parameter) is an accepted outcome of creation_commands",
 ]
 TIME_LIMIT = {"quick": 170, "thorough": 1400}
 
@@ -359,12 +401,15 @@ def nc_names(x):
     """nc_get_variable / nc_get_dimension of x and of every component (public accessors)."""
     C = cfdm()
     out = {}
-    for m in ("nc_get_variable", "nc_get_dimension"):
+    for m in ("nc_get_variable", "nc_get_dimension", "nc_get_sample_dimension", "nc_get_node_coordinate_variable",
+              "nc_get_geometry_variable", "nc_get_subsampled_dimension", "nc_get_interpolation_subarea_dimension"):
         if hasattr(x, m):
             try:
                 out[m] = getattr(x, m)(None)
             except Exception as e:
                 out[m] = "raised " + type(e).__name__
+    if isinstance(x, C.CoordinateReference):
+        out["datum"] = x.datum.nc_get_variable(None)
     if hasattr(x, "has_bounds") and x.has_bounds():
         out["bounds"] = nc_names(x.bounds)
     if hasattr(x, "has_interior_ring") and x.has_interior_ring():
@@ -377,12 +422,12 @@ def nc_names(x):
             if c.construct_type == "cell_method":
                 cms.append(nc_names(c))
             elif c.construct_type == "coordinate_reference":
-                refs.append(repr(sorted(nc_names(c).items())))
+                refs.append(nc_names(c))
             else:
                 cons[k] = nc_names(c)
         out["constructs"] = cons
         out["cms"] = cms
-        out["refs"] = sorted(refs)
+        out["refs"] = sorted(refs, key=lambda d: repr(sorted(d.items())))
     return out
 
 
@@ -541,6 +586,22 @@ KW_VARIANTS = [
     {"namespace": "cfalias"}, {"header": False}, {"indent": 2, "header": False, "name": "obj"},
     {"namespace": "cfalias.", "data_name": "d2", "string": False}, {"name": "f2", "namespace": "", "indent": 3},
 ]
+# names that clash with each other or with the names creation_commands uses itself: a refusal (ValueError naming the
+# parameter) is the documented outcome, building something else is not
+KW_CLASH = [{"name": "c"}, {"name": "b"}, {"name": "data"}, {"data_name": "c"}, {"name": "mask"}, {"name": "i", "indent": 2},
+            {"data_name": "b"}, {"bounds_name": "c"}, {"name": "x", "data_name": "x"}]
+
+
+def names_may_clash(x, kw):
+    """the keyword names are not pairwise distinct, or one of them is a name the commands use themselves"""
+    C = cfdm()
+    names = [kw.get("name", default_name(x)), kw.get("data_name", "data"), kw.get("bounds_name", "b"),
+             kw.get("interior_ring_name", "i")]
+    if len(set(names)) < len(names) or "mask" in names[:2]:
+        return True
+    if isinstance(x, (C.Field, C.Domain)):
+        return names[0] in ("b", "c", "mask", "i") or names[1] in ("b", "c", "i")
+    return False
 
 
 def default_name(x):
@@ -884,7 +945,7 @@ def standalone(cls, rng):
 
 
 MUTATIONS = ["deldata", "noid", "reftime", "strdata", "mask", "allmask", "size1", "scalar", "npprop", "noaxes", "delaxes",
-             "unsized", "ncnames", "fill", "bigtime"]
+             "unsized", "ncnames", "fill", "bigtime"] * 4 + ["numunits", "nlident", "morenc", "globattr"]
 
 
 def mutate(x, mut, rng):
@@ -983,6 +1044,31 @@ def mutate(x, mut, rng):
                     y.nc_set_variable(name())
                 if hasattr(y, "nc_set_dimension"):
                     y.nc_set_dimension(name())
+        elif mut == "numunits" and hasattr(x, "set_property") and not isfd:
+            # a numeric `units` attribute, as read from a dataset
+            if not hasattr(x, "has_data") or not x.has_data() or x.data.dtype.kind in "if":
+                x.set_property("units", rng.choice([np.int32(1), np.float64(1.0), 1]))
+                x.del_property("calendar", None)
+                if hasattr(x, "del_climatology"):
+                    x.del_climatology(None)  # only reference-time coordinates can be climatological
+        elif mut == "nlident" and hasattr(x, "set_property"):
+            # an identity with a line break
+            x.del_property("standard_name", None)
+            if hasattr(x, "del_property"):
+                x.del_property("cf_role", None)
+                x.del_property("axis", None)
+            x.set_property("long_name", rng.choice(["air temperature\nat 2 m", "multi\nline"]))
+        elif mut == "globattr" and isfd:
+            x.nc_set_global_attributes({"history": "created", "comment": None})
+        elif mut == "morenc":
+            # netCDF names other than variable / dimension names
+            if isinstance(x, C.TiePointIndex):
+                x.nc_set_subsampled_dimension("ssdim")
+                x.nc_set_interpolation_subarea_dimension("isdim")
+            elif isinstance(x, C.CoordinateReference):
+                x.datum.nc_set_variable("datum_var")
+            elif isfd:
+                x.nc_set_geometry_variable("geometry_container")
         elif mut == "fill" and hasattr(x, "set_property"):
             x.set_property("_FillValue", -999.0)
             if hasattr(x, "has_data") and x.has_data():
@@ -1055,6 +1141,13 @@ def gen_obj_payload(rng):
     nm = rng.choice([0, 0, 1, 1, 2, 3])
     p["mut"] = [rng.choice(MUTATIONS) for _ in range(nm)]
     p["kw"] = dict(rng.choice(KW_VARIANTS))
+    # at most one of the mutations that end in an open finding per object, so that each failure has one cause
+    special = [m for m in p["mut"] if m in ("numunits", "nlident", "morenc")]
+    if len(special) > 1:
+        p["mut"] = [m for m in p["mut"] if m not in special[1:]]
+    if rng.random() < 0.04:
+        p["kw"] = dict(rng.choice(KW_CLASH))
+        p["mut"] = [m for m in p["mut"] if m not in ("numunits", "nlident", "morenc")]
     return p
 
 
@@ -1089,17 +1182,40 @@ def mk_obj(p):
     p = dict(p)
     key = repr(sorted((k, repr(v)) for k, v in p.items()))
     tags = ["obj:src:" + p["src"]] + ["obj:mut:" + m for m in p["mut"]] + ["obj:kw:" + (",".join(sorted(p["kw"])) or "default")]
+    if p["kw"] in KW_CLASH:
+        tags.append("obj:kw:clashing-names")
     return Case("C19.obj", p, None, key=key, nontrivial=True, tags=tags)
 
 
+def mk_emit(p):
+    p = dict(p)
+    kw = p.get("kw") or {}
+    tags = ["emit:kind:" + p["kind"], "emit:kw:" + (",".join(sorted(kw)) or "default")]
+    if "namespace" in kw:
+        tags.append("emit:namespace:" + repr(kw["namespace"]))
+    return Case("C19.emit", p, None, key="emit" + json.dumps(p, sort_keys=True), nontrivial=True, tags=tags)
+
+
+def mk_dstr(p):
+    return Case("C19.dstr", dict(p), None, key="dstr" + json.dumps(p, sort_keys=True), nontrivial=True, tags=[])
+
+
+def mk_cstr(p):
+    return Case("C19.cstr", dict(p), None, key="cstr" + json.dumps(p, sort_keys=True), nontrivial=True, tags=[])
+
+
 def from_payload(stream, payload):
-    return {"C19.desc": mk_desc, "C19.cmds": mk_cmds, "C19.obj": mk_obj}[stream](payload)
+    return {"C19.desc": mk_desc, "C19.cmds": mk_cmds, "C19.obj": mk_obj, "C19.emit": mk_emit, "C19.dstr": mk_dstr,
+            "C19.cstr": mk_cstr}[stream](payload)
 
 
 def gen(rng, tier, n):
-    n_desc = int(n * 0.30)
-    n_cmds = int(n * 0.25)
-    n_obj = max(1, n - n_desc - n_cmds)
+    n_desc = int(n * 0.20)
+    n_cmds = int(n * 0.17)
+    n_emit = int(n * 0.20)
+    n_dstr = int(n * 0.07)
+    n_cstr = int(n * 0.05)
+    n_obj = max(1, n - n_desc - n_cmds - n_emit - n_dstr - n_cstr)
     for _ in range(n_desc):
         a = gen_abs(rng, partial=rng.random() < 0.5)
         view = (not a["dom"]) and rng.random() < 0.2
@@ -1111,6 +1227,12 @@ def gen(rng, tier, n):
         kw = dict(rng.choice([{}, {}, {"header": False}, {"indent": 4}, {"string": False}, {"namespace": ""},
                               {"data_name": "dd"}, {"name": "g"}]))
         yield mk_cmds(dict(abs=a, kw=kw))
+    for _ in range(n_emit):
+        yield mk_emit(E.gen_emit_payload(rng))
+    for _ in range(n_dstr):
+        yield mk_dstr(E.gen_dstr_payload(rng))
+    for _ in range(n_cstr):
+        yield mk_cstr(E.gen_cstr_payload(rng))
     for _ in range(n_obj):
         yield mk_obj(gen_obj_payload(rng))
 
@@ -1120,7 +1242,8 @@ def impl(c):
     # every exception of cfdm that is an observable is caught where it is observed; anything
     # that escapes is a fault of this harness, not an outcome
     try:
-        fn = {"C19.desc": impl_desc, "C19.cmds": impl_cmds, "C19.obj": impl_obj}.get(c.stream)
+        fn = {"C19.desc": impl_desc, "C19.cmds": impl_cmds, "C19.obj": impl_obj, "C19.emit": E.impl_emit,
+              "C19.dstr": E.impl_dstr, "C19.cstr": E.impl_cstr}.get(c.stream)
         if fn is not None:
             out = fn(c)
             if isinstance(c.extra, dict):
@@ -1283,8 +1406,21 @@ def object_facts(x, kw):
             comps.append(y.interior_ring)
         if isinstance(y, C.CoordinateReference):
             comps += [y.datum, y.coordinate_conversion]
-    npv = scalar_str = data_param = nonfinite = False
+    npv = scalar_str = data_param = nonfinite = npunits = nonstr_units = nl_ident = False
     for y in comps:
+        try:
+            if "\n" in str(y.identity("")):
+                nl_ident = True
+        except Exception:
+            pass
+        if isinstance(y, C.CellMethod) and "\n" in str(y.get_method("")):
+            nl_ident = True
+        if isinstance(y, (C.DimensionCoordinate, C.AuxiliaryCoordinate, C.DomainAncillary)):
+            for src in (y, y.get_bounds(None)):
+                if src is not None and any(src.has_property(k) and not isinstance(src.get_property(k), str) for k in ("units", "calendar")):
+                    nonstr_units = True
+        elif hasattr(y, "has_property") and y.has_property("calendar") and not isinstance(y.get_property("calendar"), str):
+            nonstr_units = True
         if hasattr(y, "properties") and _np_valued(y.properties()):
             npv = True
         if hasattr(y, "parameters"):
@@ -1303,6 +1439,8 @@ def object_facts(x, kw):
         if hasattr(y, "parameters"):
             datas += [v for v in y.parameters().values() if isinstance(v, C.Data)]
         for d in datas:
+            if isinstance(d.get_units(None), np.generic) or isinstance(d.get_calendar(None), np.generic):
+                npunits = True
             if d.ndim == 0 and d.dtype.kind in "SU":
                 scalar_str = True
             if d.dtype.kind == "f":
@@ -1311,6 +1449,9 @@ def object_facts(x, kw):
                 if not np.isfinite(vals).all():
                     nonfinite = True
     F["npvalued"] = npv
+    F["npunits"] = npunits
+    F["nonstr_units"] = nonstr_units
+    F["nl_ident"] = nl_ident
     F["nonfinite"] = nonfinite
     F["scalar_str"] = scalar_str
     F["data_param"] = data_param
@@ -1348,7 +1489,8 @@ def impl_obj(c):
     kw = applicable_kw(x, p["kw"]) if hasattr(x, "creation_commands") else None
     F = object_facts(x, kw)
     res, det, same = _inspect(x)
-    extra = dict(label=label, detail={k: v for k, v in det.items() if v}, same=same, kw=kw, facts=F)
+    extra = dict(label=label, detail={k: v for k, v in det.items() if v}, same=same, kw=kw, facts=F,
+                 clash=bool(kw is not None and names_may_clash(x, kw)))
     out = f"repr={res['repr']} str={res['str']} dump={res['dump']} same={int(same)}"
     if kw is None:
         c.extra = extra
@@ -1356,7 +1498,7 @@ def impl_obj(c):
     text, y, stage, detail = run_commands(x, kw)
     extra["stage"] = stage
     extra["cc_detail"] = detail
-    extra["text"] = None if text is None else text[:600]
+    extra["text"] = None if text is None else text[:40000]
     if y is None:
         c.extra = extra
         return out + " " + (stage if stage.startswith("cc=") else "cc=ok " + stage)
@@ -1417,6 +1559,12 @@ def agree(c):
     if c.stream == "C19.cmds":
         m = re.sub(r" old=\S+", "", c.model_out)
         return c.impl_out == m
+    if c.stream == "C19.emit":
+        return E.agree_emit(c)
+    if c.stream == "C19.dstr":
+        return E.agree_dstr(c)
+    if c.stream == "C19.cstr":
+        return E.agree_cstr(c)
     return True
 
 
@@ -1444,6 +1592,12 @@ def _abs_equiv(a, b):
 
 
 def oracle(c):
+    if c.stream == "C19.emit":
+        return E.oracle_emit(c)
+    if c.stream == "C19.dstr":
+        return E.oracle_dstr(c)
+    if c.stream == "C19.cstr":
+        return E.oracle_cstr(c)
     out = str(c.impl_out)
     ex = _extra(c)
     if c.stream == "C19.desc":
@@ -1478,6 +1632,8 @@ def oracle(c):
         if toks.get("cc") == "na":
             return None
         if toks.get("cc") != "ok":
+            if toks.get("cc") == "raised:ValueError" and ex.get("clash") and "parameter" in str(ex.get("cc_detail")):
+                return None  # the documented refusal of clashing names
             return f"creation_commands({ex.get('kw')}) of {ex.get('label')}: {toks.get('cc')}: {ex.get('cc_detail')}"
         if toks.get("exec") != "ok":
             return f"exec of creation_commands({ex.get('kw')}) of {ex.get('label')}: {toks.get('exec')}: {ex.get('cc_detail')}"
@@ -1504,6 +1660,10 @@ S_REFDATA = "coordinate-reference-data-valued-parameter:creation_commands-TypeEr
 S_INHERITED = "bounds-with-inherited-properties:rebuilt-not-equal"
 S_NONFINITE = "non-finite-data-value:exec-NameError"
 S_NONFINITE_REFTIME = "non-finite-reference-time-value:str-dump-AttributeError"
+S_NPUNITS = E.S_NPUNITS
+S_NONSTR = E.S_NONSTR
+S_NLHEADER = "identity-with-line-break:header-comment-spills"
+S_NCNAMES2 = "netcdf-geometry-tiepoint-datum-name-not-recreated"
 
 
 def _toks(out):
@@ -1527,6 +1687,18 @@ def unsized_domain(shown):
 def classify(c):
     """A known-finding signature, or a coarse `unexplained:…` group (never listed in
     known_findings.json) so that a regression is reported once per kind of failure, not once per case."""
+    if c.stream in ("C19.emit", "C19.dstr", "C19.cstr"):
+        if not (isinstance(c.extra, str) and c.extra.startswith("{")):
+            c2 = from_payload(c.stream, c.payload)
+            c2.impl_out = impl(c2)
+            c.extra = c2.extra
+            c.tags = c2.tags
+        sig = {"C19.emit": E.classify_emit, "C19.dstr": E.classify_dstr, "C19.cstr": E.classify_cstr}[c.stream](c)
+        if sig:
+            return sig
+        t = E.toks(c.impl_out)
+        bad = [f"{k}={str(v).split(':')[0]}" for k, v in t.items() if k != "text" and not str(v).startswith(("ok", "1")) and k != "dims"]
+        return f"unexplained:{c.stream}:" + ",".join(bad[:2])
     sig = _classify(c)
     if sig:
         return sig
@@ -1594,13 +1766,22 @@ def classify_obj(c, out, ex):
         return None
     det = ex.get("detail", {})
     sigs = []
+    nonstr = re.compile(r"is not iterable|can only concatenate str")
     if toks.get("repr") != "ok":
         if toks.get("repr") == "raised:TypeError" and F["unsized_domain"] and "not supported between" in str(det.get("repr")):
             sigs.append(S_DOMREPR)
+        elif (toks.get("repr") == "raised:TypeError" and toks.get("str") == "raised:TypeError" and F.get("nonstr_units")
+              and F["cls"] in ("DimensionCoordinate", "AuxiliaryCoordinate", "DomainAncillary", "FieldAncillary", "CellMeasure", "Bounds",
+                               "Count", "Index", "List", "InteriorRing", "DomainTopology", "CellConnectivity",
+                               "InterpolationParameter", "TiePointIndex")
+              and nonstr.search(str(det.get("repr"))) and nonstr.search(str(det.get("str")))):
+            sigs.append(S_NONSTR)
         else:
             return None
     for k in ("str", "dump"):
         if toks.get(k) != "ok":
+            if k == "str" and S_NONSTR in sigs:
+                continue
             m = re.search(r"KeyError: '(\w+)'", str(det.get(k)))
             if toks.get(k) == "raised:KeyError" and m and m.group(1) in F["noaxes"]:
                 sigs.append(S_NOAXES_STR)
@@ -1615,17 +1796,30 @@ def classify_obj(c, out, ex):
     if cc == "na":
         return sigs[0] if sigs else None
     if cc != "ok":
+        if cc == "raised:ValueError" and ex.get("clash") and "parameter" in d:
+            return sigs[0] if sigs else None  # the documented refusal of clashing names: not a failure
         if cc == "raised:ValueError" and "has not had axes set" in d and F["noaxes"]:
             sigs.append(S_NOAXES_CC)
         elif cc == "raised:TypeError" and "unexpected keyword argument 'header'" in d and F["data_param"]:
             sigs.append(S_REFDATA)
+        elif cc == "badindent" and F.get("nl_ident") and (ex.get("kw") or {}).get("header", True) and re.search(
+                r"^\s*#.*\n[^#\s]", str(ex.get("text")), flags=re.M):
+            # the spilt part of the header comment starts in column 0
+            sigs.append(S_NLHEADER)
         else:
             return None
         return sigs[0]
     e = toks.get("exec")
     if e != "ok":
+        kwd = ex.get("kw") or {}
         if e == "noname" and F["coord_name"]:
             sigs.append(S_COORDNAME)
+        elif e == "raised:other:NameError" and "name 'np' is not defined" in d and F.get("npunits") and re.search(
+                r"Data\(.*(units|calendar)=np\.", str(ex.get("text")) + str(ex.get("cc_detail"))):
+            sigs.append(S_NPUNITS)
+        elif e in ("raised:other:NameError", "raised:other:SyntaxError") and F.get("nl_ident") and kwd.get("header", True) and re.search(
+                r"^\s*#.*\n\s*[^#\s]", str(ex.get("text")), flags=re.M) and "name 'np'" not in d and not re.search(r"name '(nan|inf)'", d):
+            sigs.append(S_NLHEADER)
         elif e == "raised:other:NameError" and ("name 'np' is not defined" in d or "name 'array' is not defined" in d) and F["npvalued"]:
             sigs.append(S_NUMPY)
         elif e == "raised:other:NameError" and re.search(r"name '(nan|inf)' is not defined", d) and F.get("nonfinite"):
@@ -1645,8 +1839,12 @@ def classify_obj(c, out, ex):
     if toks.get("nc") == "0":
         diff = ex.get("nc_diff") or []
         ok = diff and all(q.endswith("/nc_get_dimension") and not re.search(r"/domainaxis\d+/nc_get_dimension$", q) for q in diff)
+        ok2 = diff and all(q.endswith(("/nc_get_geometry_variable", "/nc_get_subsampled_dimension",
+                                       "/nc_get_interpolation_subarea_dimension", "/datum")) for q in diff)
         if ok and F["cls"] != "DomainAxis":
             sigs.append(S_NCDIM)
+        elif ok2:
+            sigs.append(S_NCNAMES2)
         else:
             return None
     return sigs[0] if sigs else None
